@@ -89,6 +89,92 @@ Proof.
   - apply reachable_values_fit; auto. apply (sl_placed _ _ _ SL).
 Qed.
 
+(* the same for ANY reachable state in which every field has a position -- in particular for instances
+   created after the layout, the usual way of using a bit field *)
+Lemma reachable_sound_layout st :
+  reachable st -> all_placed (s_len st) (s_tree st) (s_store st) ->
+  sound_layout (s_len st) (s_tree st) (s_store st).
+Proof.
+  intros R HP. destruct (inv_sound_parts _ (reachable_inv _ R)) as [U [D _]]. constructor; assumption.
+Qed.
+
+Lemma value_readback_any_time st fv v :
+  reachable st -> all_placed (s_len st) (s_tree st) (s_store st) -> In fv (s_insts st) ->
+  get_value st fv None None = Ok v ->
+  forall i f, In (i, f) (enabled_fields (s_tree st) fv) ->
+    exists p l x, frange (s_store st) f = Some (p, l) /\ zassoc i fv = Some x /\ read_field v p l = x.
+Proof.
+  intros R HP Hfv Hv. eapply value_readback; eauto.
+  - now apply reachable_sound_layout.
+  - now apply reachable_values_fit.
+Qed.
+
+Lemma keys_distinct_any_time st fv1 fv2 v1 m1 v2 m2 :
+  reachable st -> all_placed (s_len st) (s_tree st) (s_store st) ->
+  In fv1 (s_insts st) -> In fv2 (s_insts st) ->
+  get_value st fv1 None None = Ok v1 -> get_mask st fv1 None None = Ok m1 ->
+  get_value st fv2 None None = Ok v2 -> get_mask st fv2 None None = Ok m2 ->
+  (exists i f, In (i, f) (enabled_fields (s_tree st) fv1) /\ zassoc i fv1 <> zassoc i fv2) ->
+  ~ keys_intersect v1 m1 v2 m2.
+Proof.
+  intros R HP H1 H2. apply (keys_distinct (s_len st)).
+  - now apply reachable_sound_layout.
+  - now apply reachable_keys_local.
+  - now apply reachable_values_fit.
+  - now apply reachable_values_fit.
+Qed.
+
+(* a layout, once complete, stays complete as long as no field is added: positions never change *)
+Lemma all_placed_persists st st' :
+  reachable st -> reaches st st' -> s_tree st' = s_tree st ->
+  all_placed (s_len st) (s_tree st) (s_store st) -> all_placed (s_len st') (s_tree st') (s_store st').
+Proof.
+  intros R Hr Ht HP i f Hin. rewrite Ht in Hin. destruct (HP i f Hin) as [p [l [Hr' Hb]]].
+  destruct (reaches_persist _ _ R Hr) as [HL Hpe].
+  apply all_fields_flat in Hin. destruct Hin as [q Hq].
+  destruct (Hpe _ Hq) as [_ [_ [_ [P4 _]]]]. unfold e_fid in P4. simpl in P4.
+  exists p, l. split; [now apply P4|]. rewrite HL. exact Hb.
+Qed.
+
+(* stated on what the public methods return only: the position reported by get_location_and_length is
+   where get_value put the field's value *)
+Lemma reported_position_readback st fv i p l v :
+  reachable st -> all_placed (s_len st) (s_tree st) (s_store st) -> In fv (s_insts st) ->
+  get_location_and_length st fv i = Ok (p, l) -> get_value st fv None None = Ok v ->
+  exists x, zassoc i fv = Some x /\ get_attr st fv i = Ok (Some x) /\ read_field v p l = x.
+Proof.
+  intros R HP Hfv Hloc Hv. unfold get_location_and_length in Hloc.
+  destruct (get_field (s_tree st) i fv) as [f|] eqn:Eg; [|discriminate].
+  pose proof (get_field_enabled _ _ _ _ Eg) as Hen.
+  destruct (value_readback_any_time _ _ _ R HP Hfv Hv i f Hen) as [p' [l' [x [Hr [Hz Hb]]]]].
+  unfold frange in Hr.
+  destruct (f_len (sget (s_store st) f)) as [l0|]; [|discriminate].
+  destruct (f_start (sget (s_store st) f)) as [p0|]; [|discriminate].
+  inversion Hloc; subst p0 l0. inversion Hr; subst p' l'.
+  exists x. split; [exact Hz|split; [|exact Hb]]. unfold get_attr. now rewrite Eg, Hz.
+Qed.
+
+(* an instance created AFTER the layout: its key is generated and read back *)
+Definition ex_after_ops : list op :=
+  [OpAdd 0 0 (Some 2) None [7]; OpCall 0 [(0, 1)]; OpAdd 1 1 None None [8]; OpCall 1 [(1, 9)];
+   OpAssign 0; OpCall 0 [(0, 1); (1, 6)]].
+
+Lemma ex_after_instance :
+  let st := exec (init 8) ex_after_ops in
+  reachable st /\ all_placed (s_len st) (s_tree st) (s_store st)
+  /\ nth 3 (s_insts st) [] = [(0, 1); (1, 6)] /\ In (nth 3 (s_insts st) []) (s_insts st)
+  /\ get_value st (nth 3 (s_insts st) []) None None = Ok 22
+  /\ get_location_and_length st (nth 3 (s_insts st) []) 1 = Ok (0, 4)
+  /\ get_location_and_length st (nth 3 (s_insts st) []) 0 = Ok (4, 2)
+  /\ read_field 22 0 4 = 6 /\ read_field 22 4 2 = 1.
+Proof.
+  cbv zeta. split; [apply exec_reachable, reach_init|]. split.
+  - assert (EL : s_len (exec (init 8) ex_after_ops) = 8) by (vm_compute; reflexivity). rewrite EL.
+    intros i f Hin. vm_compute in Hin.
+    destruct Hin as [Hin|[Hin|[]]]; inversion Hin; subst; eexists; eexists; (split; [vm_compute; reflexivity|lia]).
+  - repeat split; vm_compute; auto.
+Qed.
+
 Lemma assign_complete_flat_reachable st fs :
   reachable st -> s_tree st = Node fs [] ->
   unpositioned (s_tree st) (s_store st) ->
